@@ -152,6 +152,7 @@ def gen_index_op(rng, sess):
         op["orders"] = [rng.choice((None, rng.randrange(e), rng.sample(range(e), rng.randint(1, e)))) for e in shape[1:]]
     elif m == "reindexed":
         op["mapping"] = [[v, rng.randrange(4)] for v in range(4) if rng.random() < 0.7]
+        op["mapping_kind"] = rng.choice(model.MAPPING_KINDS)
         op["copy"] = rng.random() < 0.5
     elif m == "collapsed":
         op["precedence"] = rng.sample(range(4), rng.randint(1, 4))
@@ -454,7 +455,7 @@ class PuritySession:
                     if model.snapshot(orders) != os_:
                         raise Violation(PROP, "argument-mutated", where, "sliced changed an order list")
                 elif m == "reindexed" and nd <= 2:
-                    mapping = dict(map(tuple, op["mapping"]))
+                    mapping = model.make_mapping(op["mapping"], op.get("mapping_kind", "dict"))
                     ms = model.snapshot(mapping)
                     idx.reindexed(mapping, copy=op["copy"])
                     if model.snapshot(mapping) != ms:
